@@ -484,6 +484,14 @@ parsec_set_up_reshape_promise(parsec_execution_stream_t *es,
     }
 
 
+    /* The promise carried over from the previous output dependency of this flow can only be
+     * shared if it performs the reshaping requested by this dependency. */
+    if( (NULL != data->data_future) &&
+        (0 == parsec_reshape_check_match_datatypes((parsec_base_future_t*)data->data_future,
+                                                   data->data_future->cb_match_data_in, data)) ) {
+        data->data_future = NULL;
+    }
+
     if(    ( parsec_type_match(data->local.dst_datatype, PARSEC_DATATYPE_NULL) == PARSEC_SUCCESS) /* No reshape dtt on dep: fulfilled reshape promise */
         || ( parsec_type_match(data->local.dst_datatype, data->data->dtt) == PARSEC_SUCCESS) )     /* Same dtt: fulfilled reshape promise*/
     {
